@@ -132,6 +132,9 @@ M = [
     ('render', 'MermaidGantt.__src', 'pjplan/viz/mermaid/gantt.py', "                for task in v:\n                    res += self.__mermaid_task(task)", "                for task in v:\n                    res = self.__mermaid_task(task)", 'task-lines'),
     ('render', 'MermaidGantt.__src', 'pjplan/viz/mermaid/gantt.py', "        else:\n            for task in tasks:\n                res += self.__mermaid_task(task)", "        else:\n            for task in tasks:\n                res += self.__mermaid_task(task)\n                res += self.__mermaid_task(task)", 'task-lines'),
     ('render', 'MermaidGantt.__src', 'pjplan/viz/mermaid/gantt.py', "                sections_map.setdefault(task_section, []).append(task)", "                sections_map.setdefault('-', []).append(task)", ''),
+    ('render', 'DhtmlxGantt.__data', 'pjplan/viz/dhtmlx/gantt.py', "                for p in t.predecessors:\n                    link_id += 1", "                for p in t.predecessors:\n                    link_id += 0", 'numbered'),
+    ('render', 'DhtmlxGantt.__data', 'pjplan/viz/dhtmlx/gantt.py', "            for t in _root.all_children + [_root]:", "            for t in _root.all_children:", 'entries'),
+    ('render', 'DhtmlxGantt.__data', 'pjplan/viz/dhtmlx/gantt.py', "                data.append(data_val)\n", "                if t is not _root:\n                    data.append(data_val)\n", 'entries'),
     ('loops', '_check_loops_from_task', 'pjplan/schedule.py', "    visited_tasks.add(task.id)\n\n    for s in task.predecessors:", "    for s in task.predecessors:", 'KeyError'),
     ('loops', '_check_loops_from_task', 'pjplan/schedule.py', "    visited_tasks.remove(task.id)\n    validated.add(task.id)", "    validated.add(task.id)", 'visited-set-is-restored'),
     ('loops', '_check_loops_from_task', 'pjplan/schedule.py', "    visited_tasks.remove(task.id)\n    validated.add(task.id)", "    visited_tasks.remove(task.id)\n    validated.remove(task.id)", 'KeyError'),
